@@ -104,6 +104,13 @@ impl Source for FileSource {
 
         // We know from previous test that region.size() is addressable.
         let full_size = ASize::new(region.size().into_u64() as usize + block_check.size());
+        if region.begin().into_u64() + full_size.into_u64() > self.len {
+            return Err(std::io::Error::new(
+                std::io::ErrorKind::UnexpectedEof,
+                "Region is out of the file",
+            )
+            .into());
+        }
         if full_size.into_u64() < 4 * 1024 {
             let mut f = self.lock().unwrap();
             let mut buf = Vec::with_capacity(full_size.into_usize());
